@@ -23,8 +23,8 @@ CHECKS.update({
    "Blocks valid by construction (independent builder) must be attached when heaviest; blocks with exactly one named rule violation (DAO, target, epoch, reward, cellbase, extension/chain root) anywhere in the tree must never be attached or marked verified, and a refused reorganisation must leave the stored state equal to the old tip's replay. Header-only rules (timestamp bounds, PoW) are outside this check."),
  "C06": node("§8 C06, §5 E-NODE", "deterministic simulation with an independent issuance model (reward split, first-proposer rule, DAO accumulation) as block builder and monitor",
    "Every cellbase and DAO field is computed by the model from the property text; the node must accept exactly those blocks and reject +-1 mutants; header U must equal the occupied capacity of the stored live cells; every main-chain cellbase must equal the property-text reward. One genuine deviation (proposer share for target block 1) is a recorded known finding."),
- "C19": node("§8 C19, §5 E-NODE", "deterministic simulation; from-scratch MMR (own RFC 0044 merge) as builder and monitor across reorgs and restarts",
-   "Chain-root half of C19: every block on every fork commits to the naive MMR root over its ancestors (equality enforced through the node's own verifier on model-built blocks), wrong roots are rejected, and after every reorg/restart the node's chain_root_mmr roots equal the naive ones. Proof serving and block filters are not covered yet."),
+ "C19": node("§6 C19, §4 simnode chain mode", "deterministic simulation; from-scratch MMR (own RFC 0044 merge) as block builder and monitor across reorgs and restarts; membership proofs generated from the node's stored MMR verified against the model; block-filter builder run as simulator-placed passes and compared with model-derived filters and hash chain",
+   "Every block on every fork commits to the naive MMR root over its ancestors (equality enforced through the node's own verifier on model-built blocks), wrong roots are rejected, after every reorg/restart the node's chain_root_mmr roots equal the naive ones, proofs for seeded position sets verify against the model's root and leaves and against nothing else, and after every filter-builder pass (lagging by blocks, reorgs, restarts) every main-chain block's filter matches exactly its scripts and the filter hashes chain."),
  "C20": node("§8 C20, §5 E-NODE + process restarts", "deterministic simulation of reorgs relative to the proposal window with clean restarts (new OS process) at arbitrary operation indexes",
    "After every tip change and after every restart (start-up reconstruction path) the snapshot's proposal view {set, gap} must equal the union over the model's window, for windows 1..3 / 2..11, chains shorter than the window and reorgs deeper than it."),
 })
